@@ -20,8 +20,8 @@ MUTANTS = [
     ('C03-slice-end', 'server/enip/logix.py', "                recs			= attribute[beg:end]", "                recs			= attribute[beg:end] if end - beg != 7 else attribute[beg:end-1] + attribute[end-2:end-1]"),
     ('C03-reply-type', 'server/enip/logix.py', "                data[context].type = attribute.parser.tag_type",
      "                data[context].type = attribute.parser.tag_type if attribute.parser.tag_type != 0xc7 else 0xc3"),
-    ('C04-endadv-rounds-down', 'server/enip/logix.py', "            endadv		= max(( offremains + max_size + siz - 1 ) // siz, 1 ) # rounds up",
-     "            endadv		= max(( offremains + max_size ) // siz, 1 ) # rounds up"),
+    ('C04-endadv-one-too-many', 'server/enip/logix.py', "            endadv		= max(( offremains + max_size + siz - 1 ) // siz, 1 ) # rounds up",
+     "            endadv		= max(( offremains + max_size + siz ) // siz, 1 ) # rounds up"),
     ('C04-completed-vs-endmax', 'server/enip/logix.py', "                    completed		= end == endactual\n                data[context].data	= recs",
      "                    completed		= end >= endactual - ( 1 if end - beg == 3 else 0 )\n                data[context].data	= recs"),
     ('C05-assign-before-check', 'server/enip/logix.py',
@@ -82,7 +82,7 @@ MUTANTS = [
     ('C19-reach-off-by-one', 'remote/plc_modbus.py', "                 and address < base + length + ( reach or 1 )):", "                 and address <= base + length + ( reach or 1 )):"),
     ('C19-bank-test-dropped', 'remote/plc_modbus.py', "            if ( address // 10000 == base // 10000\n", "            if ( address // 10000 >= base // 10000\n"),
     ('C20-length-from-text', 'server/tnetstrings.py', "    siz = ('%d' % len(out)).encode('ascii')", "    siz = ('%d' % len(data if type(data) is str else out)).encode('ascii')"),
-    ('C20-type-before-payload', 'server/tnet.py', "        DATA[t]			= TYPE", "        DATA[t]			= TYPE\n    SIZE[b'~'[0]]		= TYPE"),
+    ('C20-bytes-payload-stripped', 'server/tnet.py', "                data[ours]	= src\n            elif tntype == b'$'[0]:", "                data[ours]	= src.rstrip( b'\\x00' )\n            elif tntype == b'$'[0]:"),
 ]
 
 
